@@ -884,10 +884,19 @@ def _to_string(schema):
 
 def check_leaf_behaviour(step, src, res, fail):
     """A custom scalar / enum the step did not remove is an object of the same Python class and serializes / parses alike."""
-    from py_gql.schema import EnumType, ScalarType
+    from py_gql.schema import EnumType, InputObjectType, InterfaceType, ObjectType, ScalarType
     for name, t in src.types.items():
         r = res.types.get(name)
-        if name.startswith("__") or r is None or not isinstance(t, (ScalarType, EnumType)):
+        if name.startswith("__") or r is None:
+            continue
+        if isinstance(t, (ObjectType, InterfaceType, InputObjectType)):
+            # (an instance of an application-defined subclass rebuilt by a VISITOR keeps its class, T16; extend_schema still
+            #  rebuilds composite types as plain ones: not checked for extend)
+            if step["op"] != "extend" and type(t) not in (ObjectType, InterfaceType, InputObjectType) and type(r) is not type(t):
+                fail("preserved:%s:composite:class" % step["op"], "type %s was an instance of %s, the result registers an instance of %s"
+                     % (name, type(t).__name__, type(r).__name__))
+            continue
+        if not isinstance(t, (ScalarType, EnumType)):
             continue
         kind = "scalar" if isinstance(t, ScalarType) else "enum"
         if type(r) is not type(t):
@@ -929,7 +938,7 @@ def track_registered(step, tracked_src, res, fail):
     return out
 
 
-def directive_cases(ctx, source, funcs, rng, fail):
+def directive_cases(ctx, source, funcs, rng, fail, sdl=None):
     """Two uses of schema directives / visitors checked by the direct oracle only (no model step):
     (1) a SchemaDirective whose `definition` is given INLINE and whose arguments use types the schema does not know;
     (2) a visitor that removes an enum value some default value names."""
@@ -964,6 +973,58 @@ def directive_cases(ctx, source, funcs, rng, fail):
             if types is None or "C14Level" not in types or "c14inline" not in (dirs or []):
                 fail("closed:schema-directive-inline-definition:introspection",
                      "introspection does not list the directive given inline / the type of its argument")
+    # (1b) two-phase build from ONE document: the base's directives are not applied again by the extension phase
+    from py_gql import build_schema
+    from py_gql.lang import parse
+    from py_gql.schema import Field, ScalarType
+    from py_gql.sdl import extend_schema
+    q = source.query_type.name
+    applied = {}
+
+    class Wrap(SchemaDirective):
+        definition = WRAPDIR
+
+        def on_field(self, f):
+            applied[f.name] = applied.get(f.name, 0) + 1
+            inner = f.resolver
+            return Field(f.name, f.type, args=f.arguments, description=f.description, deprecation_reason=f.deprecation_reason,
+                         resolver=funcs.make(lambda *a, **kw: (inner or W.universal_resolver)(*a, **kw)),
+                         subscription_resolver=f.subscription_resolver, node=f.node, python_name=f.python_name)
+    if sdl and WRAPDIR not in source.directives:
+        try:
+            doc = parse(sdl + "\ndirective @%s on FIELD_DEFINITION\ntype C14Holder { h: Int @%s }\nextend type %s { c14_w: Int @%s }\n"
+                        % (WRAPDIR, WRAPDIR, q, WRAPDIR), allow_type_system=True)
+            base = build_schema(doc, ignore_extensions=True, schema_directives=[Wrap])
+            extend_schema(base, doc, strict=False, schema_directives=[Wrap])
+            ctx.count()
+            ctx.stat("directive-case:two-phase-build-from-one-document")
+            if applied.get("h", 0) != 1:
+                fail("preserved:extend:field:schema-directive-applied-again:same-document",
+                     "build_schema(doc, ignore_extensions=True, schema_directives=…) then extend_schema(base, doc, strict=False, "
+                     "schema_directives=…): the directive on the base field C14Holder.h was applied %d times" % applied.get("h", 0))
+        except (SchemaError, SDLError) as e:
+            ctx.notes.append("two-phase build case: %s" % e)
+    # (1c) a schema directive that gives an argument a NEW type (the library's own test pattern)
+    class NewType(SchemaDirective):
+        definition = "c14len"
+
+        def on_argument(self, arg):
+            arg.type = ScalarType("C14Limited", serialize=str, parse=str)
+            return arg
+    if sdl:
+        try:
+            r = build_schema(sdl + "\ndirective @c14len on ARGUMENT_DEFINITION\ntype C14Holder2 { h(x: String @c14len): Int }\n"
+                             "extend type %s { c14_holder2: C14Holder2 }\n" % q, schema_directives=[NewType])
+            ctx.count()
+            ctx.stat("directive-case:directive-gives-an-argument-a-new-type")
+            bad = [b for b in W.closed_violations(r) if "C14Limited" in b]
+            h = r.types.get("C14Holder2")
+            if bad or h is None or not h.field_map["h"].arguments:
+                fail("closed:schema-directive-new-argument-type:unregistered",
+                     "a schema directive gave C14Holder2.h(x:) the new type C14Limited: %s"
+                     % (bad[0] if bad else "the argument was silently dropped by a healing pass"))
+        except (SchemaError, SDLError) as e:
+            ctx.notes.append("new-argument-type case: %s" % e)
     # (2)
     cands = []
     for n, t in source.types.items():
@@ -980,8 +1041,13 @@ def directive_cases(ctx, source, funcs, rng, fail):
             if isinstance(b, EnumType) and a.has_default_value and isinstance(a.default_value, str) and len(b.values) > 1:
                 cands.append((b.name, a.default_value))
     if not cands:
+        # (no default mentions an enum value: still remove one value of a subclassed enum, if the source has one)
+        cands = [(n, t.values[-1].name) for n, t in source.types.items() if isinstance(t, EnumType) and type(t) is not EnumType
+                 and not n.startswith("__") and len(t.values) > 1]
+    if not cands:
         return
-    en, val = rng.choice(sorted(set(cands)))
+    sub = [c for c in sorted(set(cands)) if type(source.types[c[0]]) is not EnumType]
+    en, val = rng.choice(sub if sub else sorted(set(cands)))
 
     class DropValue(SchemaVisitor):
         def on_enum(self, e):
@@ -997,6 +1063,9 @@ def directive_cases(ctx, source, funcs, rng, fail):
         return
     ctx.count()
     ctx.stat("directive-case:enum-value-removal")
+    if r.types.get(en) is not None and type(r.types[en]) is not type(source.types[en]):
+        fail("preserved:transform:enum:class", "enum %s was an instance of %s; a visitor removed ONE value and the result registers an instance of %s"
+             % (en, type(source.types[en]).__name__, type(r.types[en]).__name__))
     e = r.types.get(en)
     if e is None or any(v.name == val for v in e.values):
         return
@@ -1084,22 +1153,27 @@ def default_cases(ctx, source, sdl, rng, fail):
             olds = [w for w, el, b in _defaulted_members(source) if b is source.types[i] and isinstance(el.default_value, dict)]
             if olds:
                 ctx.stat("default-case:existing-default-of-the-extended-input-type")
-            # (only defaults that still ARE the value of their literal: python names assigned in code after the schema was built
-            #  change the keys of a coerced input object, such a default is no longer the value of what the document says)
-            from py_gql.utilities import value_from_ast
-            faithful = set()
-            for w, el, b in _defaulted_members(source):
-                try:
-                    if el.node is not None and el.node.default_value is not None and value_from_ast(el.node.default_value, el.type) == el.default_value:
-                        faithful.add(w)
-                except Exception:  # noqa
-                    pass
             stale = [w for w, el, b in _defaulted_members(r)
-                     if w in faithful and b is r.types[i] and isinstance(el.default_value, dict) and "c14_b" not in el.default_value]
+                     if b is r.types[i] and isinstance(el.default_value, dict) and "c14_b" not in el.default_value]
             if stale:
                 fail("preserved:extend:default:stale-after-input-extension",
                      "after `extend input %s { c14_b: Int = 5 }` the default of %s is still the value coerced against the old %s "
                      "(no c14_b): resolvers get a different value for the default than for the same literal" % (i, stale[0], i))
+        # … also when the schema was camel-cased first (the SDL literal of the default no longer spells the field names)
+        try:
+            from py_gql.schema.transforms import CamelCaseSchemaTransform
+            rc = extend_schema(transform_schema(source, CamelCaseSchemaTransform()), "extend input %s { c14_b: Int = 5 }" % i)
+        except Exception:  # noqa
+            rc = None
+        if rc is not None:
+            ctx.count()
+            ctx.stat("default-case:extend-after-camel-case")
+            stale = [w for w, el, b in _defaulted_members(rc)
+                     if b is rc.types[i] and isinstance(el.default_value, dict) and "c14_b" not in el.default_value]
+            if stale:
+                fail("preserved:extend:default:stale-after-input-extension",
+                     "camel-case then `extend input %s { c14_b: Int = 5 }`: the default of %s has no c14_b (extend after camel-case differs "
+                     "from camel-case after extend)" % (i, stale[0]))
     # (4)
     cands = []
     for w, el, b in _defaulted_members(source):
@@ -1374,7 +1448,7 @@ def one_sequence(ctx, seed_note, size, n_steps, steps=None, build_seed=None):
         def fail_extra(sig, what):
             if not any(s0 == sig for s0, _ in failures + extra):
                 extra.append((sig, what))
-        directive_cases(ctx, source, funcs, random.Random(seed ^ 0xD1EC), fail_extra)
+        directive_cases(ctx, source, funcs, random.Random(seed ^ 0xD1EC), fail_extra, sdl)
         default_cases(ctx, source, sdl, random.Random(seed ^ 0xDEFA), fail_extra)
         if W.dump_differs(dumper, source, base_raw):
             fail_extra("frame:source-modified:schema-directive-case", "the source changed while schema directives were applied to a clone of it")
